@@ -35,6 +35,10 @@ type ScalarIid struct {
 /* -------------------------------------------------------------------------- */
 
 func NewScalarIid(distribution ScalarPdf, n int) (*ScalarIid, error) {
+  // n == -1: any length
+  if n < -1 {
+    return nil, fmt.Errorf("error while creating a scalar iid distribution: invalid dimension `%d'", n)
+  }
   t := NewScalar(distribution.ScalarType(), 0.0)
   return &ScalarIid{distribution, n, t}, nil
 }
